@@ -18,7 +18,11 @@ MODULE = "DaliVerif.Props.C17"
 EXES = ["m_drv"]
 GEN = False
 THEOREMS = ["no_leak", "no_leak_drivers", "wrap_safe", "inflight_fail", "inflight_fail_must_raise",
-            "recovery_partial", "handshake_completes", "serial_timeout", "serial_answer_wait_ends",
+            "status_language", "status_language_ok", "status_language_conn", "status_language_strict",
+            "retry_pending_while_disconnected", "never_silent", "failed_after_limit", "retry_until_limit",
+            "attempts_reset_on_connect", "connect_resets_counter", "limit_is_per_outage",
+            "reconnect_when_back", "handshake_completes", "recovery",
+            "serial_timeout", "serial_answer_wait_ends",
             "f8_witness_old_code_leaks", "f8_fixed_code_clean", "f9_witness_old_code_silent",
             "f9_fixed_code_reports"]
 TRUSTED = ["hand-written models Model/Async.lean, Model/CallerProgram.lean, Model/Conn.lean (connect/_reconnect/"
@@ -29,25 +33,36 @@ ASSUMPTIONS = ["callers use send() / run_sequence() only",
                "the OS reports a vanished hidraw device to the reader (EOF/error) once a write to it has failed"]
 PARTIAL = ("Theorems are about the model for every schedule and fault placement; the tie to the real drivers is trace "
            "validation. The model cannot exhibit real event-loop scheduling, OS fd behaviour, wall-clock, pyserial. "
-           "recovery is proved for the connection machine (recovery_partial: after the device returns the next timer "
-           "re-opens it, the handshake completes and connected is set) - completion of the queued sends then follows "
-           "from C15's progress_partial under the gateway-liveness assumption. status_language (callbacks in connected "
-           "(disconnected (connected|failed))*, failed after exactly `limit` failed attempts) is NOT proved in Lean for "
-           "all event sequences: the connection machine Model/Conn.lean is validated against the real driver on every "
-           "trace, the language and the attempt count/instants are asserted on the real driver's callbacks and virtual "
-           "clock in every explored schedule, and Lean has the concrete F9 witness pair only. Open: on hasseb/LUBA/SCI (no sequence numbers) the late "
-           "answer of a cancelled send is handed to the next command (xtalk-cancel:*).")
+           "status_language, failed_after_limit, attempts_reset_on_connect and recovery are proved for the connection "
+           "machine Model/Conn.lean inside the interleaving model (invariant Conn.CInv, every event sequence, every "
+           "limit None/0/n, every interleaving with callers). Not in the model, asserted on the real driver's virtual "
+           "clock only: that retries happen at exactly the configured interval. recovery proves that after the device "
+           "returns the retry and the handshake are enabled and set `connected` again with the callers' state "
+           "untouched and every caller queued in connected.wait() enabled; that queued and new sends then COMPLETE is "
+           "C15.progress / nobody_hangs under two explicit hypotheses - `connected` stays set and GatewayAnswers (the "
+           "report each waiting caller waits for is delivered) - which are assumptions about the environment, not "
+           "proved of any gateway; that the answers are the right ones is C16. The serial drivers have no reconnect "
+           "machine in the model (their connection is opened once). Open: on hasseb/LUBA/SCI (no sequence numbers) "
+           "the late answer of a cancelled send is handed to the next command (xtalk-cancel:*).")
 LEVEL_TEXT = ("Lean 4 theorems, every schedule and fault placement of the model: in every reachable state in which all "
               "callers have finished - normally, by exception or by cancellation - the transaction lock is free, the "
               "inner serialiser is at capacity and _outstanding is empty (no_leak); a sequence number is never "
-              "allocated while occupied, for any number of further sends (wrap_safe); [trace-checked only: the callback sequence is in "
-              "connected (disconnected (connected|failed))* with failed after exactly `limit` failed "
-              "attempts] (both checked on every explored trace, not proved); on loss every outstanding command gets a fail message, the table is "
+              "allocated while occupied, for any number of further sends (wrap_safe); the callback sequence never "
+              "leaves the automaton of connected (disconnected (connected|failed))* (status_language; literal form "
+              "with failed final when connect() is called once: status_language_strict), after `disconnected` a retry "
+              "is always pending (retry_pending_while_disconnected) and the driver stops retrying only after reporting "
+              "`failed` (never_silent), `failed` is reported after exactly `limit` failed "
+              "attempts of the outage, never earlier, never later, never with limit None (failed_after_limit, "
+              "retry_until_limit), _reconnect_count is 0 whenever the device is open and counts per outage "
+              "(attempts_reset_on_connect, connect_resets_counter, limit_is_per_outage); when the device returns the "
+              "retry re-opens it, the handshake is repeated, `connected` is set and queued callers are enabled "
+              "(recovery); on loss every outstanding command gets a fail message, the table is "
               "emptied and the waiting task can only leave with CommunicationError or retry (inflight_fail); serial "
               "confirmation time-out raises with every lock released, answer time-out returns (serial_timeout). "
               "Witness theorems show the unrepaired code leaks the slot (F8) and never reports failed (F9).")
 LEVEL_NOTE = ("partial: proof about the model; tie by trace validation over explored schedules with loss injected at "
-              "every quiescent point; timing (retry interval, timeouts) asserted on the real driver's virtual clock.")
+              "every quiescent point; timing (retry interval, timeouts) asserted on the real driver's virtual clock; "
+              "completion of sends after recovery needs the stated gateway-liveness hypothesis (C15.progress).")
 TECHNIQUE = ("Lean 4 invariant proofs over all schedules and fault placements of an interleaving + connection model, "
              "trace validation of the real drivers in a virtual-time loop with fault injection")
 
